@@ -87,11 +87,11 @@ func (in *Interp) fmtValue(verb byte, v Value) Value {
 			return "<native>"
 		}
 		// error / Stringer
-		if m := in.prog.LookupMethod(x.typ, nil, "Error"); m != nil && verb != 'T' {
+		if m := in.lookupMethod(x.typ, nil, "Error"); m != nil && verb != 'T' {
 			r := in.Call(m, []Value{x.v}, nil)
 			return r
 		}
-		if m := in.prog.LookupMethod(x.typ, nil, "String"); m != nil && verb != 'T' && verb != 'd' {
+		if m := in.lookupMethod(x.typ, nil, "String"); m != nil && verb != 'T' && verb != 'd' {
 			if m.Signature.Params().Len() == 0 && m.Signature.Results().Len() == 1 && isStringT(m.Signature.Results().At(0).Type()) {
 				return in.Call(m, []Value{x.v}, nil)
 			}
@@ -213,7 +213,7 @@ func (in *Interp) errUnwrapAll(e *IfaceV) []*IfaceV {
 		}
 		return nil
 	}
-	if m := in.prog.LookupMethod(e.typ, nil, "Unwrap"); m != nil {
+	if m := in.lookupMethod(e.typ, nil, "Unwrap"); m != nil {
 		r := in.Call(m, []Value{e.v}, nil)
 		switch x := r.(type) {
 		case *IfaceV:
@@ -242,7 +242,7 @@ func (in *Interp) errorsIs(err, target *IfaceV) bool {
 		return true
 	}
 	if err.typ != nil {
-		if m := in.prog.LookupMethod(err.typ, nil, "Is"); m != nil && m.Signature.Params().Len() == 1 {
+		if m := in.lookupMethod(err.typ, nil, "Is"); m != nil && m.Signature.Params().Len() == 1 {
 			r := in.Call(m, []Value{err.v, target}, nil)
 			if t, ok := r.(*Term); ok && in.ex.Branch(t) {
 				return true
@@ -272,23 +272,27 @@ func (in *Interp) eqValSafe(a, b *IfaceV) (t *Term) {
 
 // ---------- time model: 128-bit signed nanosecond count in (wall=low64, ext=high64) ----------
 
+// TW: width of the nanosecond count. Instants enter as sign-extended 64-bit values and durations are 64-bit, so
+// TW-64 spare bits allow 2^(TW-64) chained additions before the model could wrap (stated bound of the clock model).
+const TW = 72
+
 func (in *Interp) timeVal(t *Term) Value {
 	tb := in.tb
-	return &Agg{cells: []*Cell{{tb.Extract(t, 63, 0)}, {tb.Extract(t, 127, 64)}, {(*Cell)(nil)}}}
+	return &Agg{cells: []*Cell{{tb.Extract(t, 63, 0)}, {tb.Ext("sext", tb.Extract(t, TW-1, 64), 64)}, {(*Cell)(nil)}}}
 }
 
 func (in *Interp) timeOf(v Value) *Term {
 	a := v.(*Agg)
-	return in.tb.Concat(a.cells[1].v.(*Term), a.cells[0].v.(*Term))
+	return in.tb.Concat(in.tb.Extract(a.cells[1].v.(*Term), TW-65, 0), a.cells[0].v.(*Term))
 }
 
-func (in *Interp) durOf(v Value) *Term { return in.tb.Ext("sext", v.(*Term), 128) }
+func (in *Interp) durOf(v Value) *Term { return in.tb.Ext("sext", v.(*Term), TW) }
 
 func (in *Interp) timeSub(a, b *Term) *Term {
 	tb := in.tb
 	d := tb.Bin("bvsub", a, b)
-	max := tb.SConst(128, 0x7fffffffffffffff)
-	min := tb.SConst(128, -0x8000000000000000)
+	max := tb.SConst(TW, 0x7fffffffffffffff)
+	min := tb.SConst(TW, -0x8000000000000000)
 	return tb.Ite(tb.Bin("bvslt", max, d), tb.Const(64, 0x7fffffffffffffff), tb.Ite(tb.Bin("bvslt", d, min), tb.Const(64, 0x8000000000000000), tb.Extract(d, 63, 0)))
 }
 
@@ -303,7 +307,7 @@ func (in *Interp) now() Value {
 		in.ex.Assume(tb.Bin("bvsle", in.lastNow, v))
 	}
 	in.lastNow = v
-	return in.timeVal(tb.Ext("sext", v, 128))
+	return in.timeVal(tb.Ext("sext", v, TW))
 }
 
 func init() {
@@ -423,7 +427,7 @@ func init() {
 	}
 	V["vxInstant"] = func(in *Interp, fn *ssa.Function, a []Value) Value {
 		v := in.ex.NewVar(cstr(a[0]), 64)
-		return in.timeVal(in.tb.Ext("sext", v, 128))
+		return in.timeVal(in.tb.Ext("sext", v, TW))
 	}
 	V["vxTimeLE"] = func(in *Interp, fn *ssa.Function, a []Value) Value {
 		return in.tb.Bin("bvsle", in.timeOf(a[0]), in.timeOf(a[1]))
@@ -915,7 +919,7 @@ func init() {
 	I["(time.Time).Local"] = ident
 	I["(time.Time).In"] = ident
 	I["(time.Time).IsZero"] = func(in *Interp, fn *ssa.Function, a []Value) Value {
-		return in.tb.Eq(in.timeOf(a[0]), in.tb.SConst(128, 0))
+		return in.tb.Eq(in.timeOf(a[0]), in.tb.SConst(TW, 0))
 	}
 	I["(time.Time).Add"] = func(in *Interp, fn *ssa.Function, a []Value) Value {
 		return in.timeVal(in.tb.Bin("bvadd", in.timeOf(a[0]), in.durOf(a[1])))
@@ -996,7 +1000,7 @@ func init() {
 	nativeObjMethods["ctx.Err"] = func(in *Interp, o *NativeObj, a []Value) Value { return (*IfaceV)(nil) }
 	nativeObjMethods["ctx.Done"] = func(in *Interp, o *NativeObj, a []Value) Value { return (*ChanV)(nil) }
 	nativeObjMethods["ctx.Deadline"] = func(in *Interp, o *NativeObj, a []Value) Value {
-		return []Value{in.timeVal(in.tb.SConst(128, 0)), in.tb.BoolC(false)}
+		return []Value{in.timeVal(in.tb.SConst(TW, 0)), in.tb.BoolC(false)}
 	}
 	nativeObjMethods["ctx.Value"] = func(in *Interp, o *NativeObj, a []Value) Value {
 		for c := o; c != nil; {
